@@ -120,4 +120,29 @@ PROPS['C19'] = {
     'level_note': 'A-REAL (linspace, exp10/log10), C18 contract assumed for the logicle transform, FCSData accessors by their contracts.',
 }
 
+_ALL_CONTRACTS_WITH_FRAME = (
+    ['contracts.gate:StartEnd', 'contracts.gate:HighLow', 'contracts.gate:Ellipse',
+     'contracts.transform:ToRfi', 'contracts.transform:ToMef', 'contracts.histbins:HistBins',
+     'contracts.io:NameToIndex', 'contracts.io:Range', 'contracts.io:Resolution', 'contracts.io:AmplificationType',
+     'contracts.io:AmplifierGain', 'contracts.io:DetectorVoltage', 'contracts.io:ChannelLabels', 'contracts.io:ArrayFinalize',
+     'contracts.io:GetItem', 'contracts.io:FileEq']
+    + ['contracts.stats:' + n for n in ('Mean', 'Gmean', 'Median', 'Mode', 'Std', 'Cv', 'Gstd', 'Gcv', 'Iqr', 'Rcv')])
+
+PROPS['C13'] = {
+    'contracts': _ALL_CONTRACTS_WITH_FRAME,
+    'bounded': True,
+    'level': 'other',
+    'timeout_ms': 10000,
+    'explanation': 'Frame conditions proved for the functions under contract (gates start_end/high_low/ellipse, to_rfi, to_mef, the ten '
+                   'statistics, hist_bins, the six accessors, _name_to_index, __getitem__, __array_finalize__, FCSFile.__eq__): on every '
+                   'path the symbolic executor logs each heap write (list/dict/array stores, appends, attribute stores, writes through '
+                   'views reach the root buffer); obligations frame.arguments-not-modified, frame.events-of-*-unchanged (contents equal the '
+                   'original uninterpreted contents at an arbitrary index) and frame.result-shares-no-mutable-state (results of converting/'
+                   'gating are fresh; slices/views may share the event buffer only; metadata is a deep copy by __array_finalize__). '
+                   'Functions without a contract (plot.*, mef.*, gate.density2d, transform.transform, the FCS readers, excel_ui) are covered '
+                   'only by the bounded fingerprint harness that enumerates every public function of the six modules (C13.frame).',
+    'level_note': 'A-LIB-PURE: NumPy/SciPy calls do not mutate their arguments except the modelled in-place operations; functions without '
+                  'contract: bounded only.',
+}
+
 NOT_APPLICABLE = {}
